@@ -741,6 +741,33 @@ func (e *Env) evalCall(n *ECall) SVal {
 			return e.errf("allof: no direct field %s in %s", sel.Name, tyname)
 		}
 		return SVal{T: e.heap(e.cur, c.fieldArrayName(t, path[0]))}
+	case "held", "wheld":
+		// held(x.mu): the mutex field mu of x is in the ghost lock-set (read or write lock); wheld: the write lock
+		need(1)
+		sel, ok := n.Args[0].(*ESel)
+		if !ok {
+			return e.errf("%s expects x.mutexfield", n.Fn)
+		}
+		base := e.eval(sel.X)
+		if base.Type == nil {
+			return e.errf("%s: untyped owner", n.Fn)
+		}
+		bt := base.Type
+		if pt, ok := bt.Underlying().(*types.Pointer); ok {
+			bt = pt.Elem()
+		}
+		path, ft, ok := fieldPath(bt, sel.Name)
+		if !ok {
+			return e.errf("%s: no field %s", n.Fn, sel.Name)
+		}
+		if _, isPtr := ft.Underlying().(*types.Pointer); isPtr {
+			v := e.eval(n.Args[0])
+			return SVal{T: c.heldTerm(e.cur, "ptr", v.T, n.Fn == "wheld")}
+		}
+		if len(path) != 1 {
+			return e.errf("%s: promoted mutex field %s not supported", n.Fn, sel.Name)
+		}
+		return SVal{T: c.heldTerm(e.cur, sanitize(c.fieldArrayName(bt, path[0])), base.T, n.Fn == "wheld")}
 	case "allelems", "arrref":
 		// allelems(s): the backing arrays of every slice with the element type of s (to state that a loop or call writes
 		// one backing array only: allelems(a) == store(old(allelems(a)), arrref(a), select(allelems(a), arrref(a))));
@@ -832,7 +859,18 @@ func (e *Env) evalCall(n *ECall) SVal {
 		return SVal{T: mk(SSlice, fmt.Sprintf("(mk-slice %s %s %s)", arg(0).T.S, arg(1).T.S, arg(2).T.S))}
 	}
 	if t, ok := e.skolems[n.Fn]; ok && len(n.Args) == 0 {
-		return SVal{T: t}
+		sv := SVal{T: t}
+		if g, ok := c.prog.Ghosts[n.Fn]; ok {
+			// keep the declared type of the ghost constant (a pointer-typed skolem is dereferenced in the clause)
+			ge := &Env{c: c, vars: map[string]SVal{}, pkg: c.prog.typesPkg(g.Pkg), g: tTrue}
+			if ge.pkg == nil {
+				ge = e
+			}
+			if _, ty := ge.specSort(g.Ret); ty != nil {
+				sv.Type = ty
+			}
+		}
+		return sv
 	}
 	// ghost function
 	if g, ok := c.prog.Ghosts[n.Fn]; ok {
